@@ -44,11 +44,16 @@ def elem_kind(s):
     return next(iter(s[1]))[0]
 
 
+def sig(v):
+    """The type of a value: its kind, and for a set additionally the type of its elements (a set is parameterized by it)."""
+    return ("set", sig(next(iter(v[1])))) if v[0] == "set" else v[0]
+
+
 def mk_set(elements):
     els = list(elements)
     if not els:
         raise Undefined("empty set")
-    if len({e[0] for e in els}) != 1:
+    if len({sig(e) for e in els}) != 1:
         raise Undefined("heterogeneous set")
     return ("set", frozenset(els))
 
@@ -136,7 +141,7 @@ def binary_set(op, x, y):
     if kx == ky == "set":
         if op in LOGIC or op in ARITH:
             raise Undefined("operator %s on two sets" % op)
-        if elem_kind(x) != elem_kind(y):
+        if sig(x) != sig(y):
             raise Undefined("sets of different element types")
         a, b = x[1], y[1]
         if op in COMPARE:
